@@ -25,8 +25,10 @@ read.  `long_source_cases` / `long_operator_cases` add sources of 63..130
 members, with the failing positions, shard ends, member boundaries and resume
 cuts at and next to the multiples of those windows.
 
-Only num_threads = 0 is enumerated here; `nt` is carried through every program
-so that a scheduler-driven variant can add values to NUM_THREADS.
+The enumerated programs above run with num_threads = 0.  num_threads 1-2 run
+under the deterministic scheduler (E1): `vmc/ckharness.py::SkipThreaded`, driven
+from `run()` (failing apply at every failure set |F| <= 2 over 4 records, three
+source kinds, skipping on / off).
 """
 import itertools as itt
 
